@@ -370,6 +370,22 @@ impl LuaEngine {
     }
     
     fn lua_value_to_resp(&self, value: LuaValue) -> RespFrame {
+        let mut too_deep = false;
+        let frame = self.lua_value_to_resp_at(value, 0, &mut too_deep);
+        if too_deep {
+            return RespFrame::error("ERR reached lua stack limit");
+        }
+        frame
+    }
+    
+    /// Tables nested deeper than this (a table that contains itself never ends) are answered with an error
+    const MAX_REPLY_DEPTH: usize = 128;
+    
+    fn lua_value_to_resp_at(&self, value: LuaValue, depth: usize, too_deep: &mut bool) -> RespFrame {
+        if depth > Self::MAX_REPLY_DEPTH {
+            *too_deep = true;
+            return RespFrame::BulkString(None);
+        }
         match value {
             LuaValue::Nil => RespFrame::BulkString(None),
             LuaValue::Boolean(b) => {
@@ -401,9 +417,12 @@ impl LuaEngine {
                 // Convert Lua table to Redis array
                 let mut items = Vec::new();
                 for i in 1.. {
+                    if *too_deep {
+                        break;
+                    }
                     match table.get::<LuaValue>(i) {
                         Ok(LuaValue::Nil) => break,
-                        Ok(value) => items.push(self.lua_value_to_resp(value)),
+                        Ok(value) => items.push(self.lua_value_to_resp_at(value, depth + 1, too_deep)),
                         Err(_) => break,
                     }
                 }
